@@ -354,6 +354,7 @@ class BacktrackSolver(Solver):
         compute_domains_addrs, var_heuristic_addrs, dom_heuristic_addrs, consistency_alg_addrs = (
             get_function_addresses()
         )
+        self.restart()  # the solver may have been used before
         while True:
             solution = solve_one(
                 self.statistics,
@@ -416,6 +417,7 @@ class BacktrackSolver(Solver):
         compute_domains_addrs, var_heuristic_addrs, dom_heuristic_addrs, consistency_alg_addrs = (
             get_function_addresses()
         )
+        self.restart()  # the solver may have been used before
         while True:
             solution = solve_one(
                 self.statistics,
